@@ -91,7 +91,18 @@ def u_compute(ctx, weighted, given):
             ctx.check(f"{name}/post:sum_weights_is_count", m.sum_weights == n)
         if given:
             ctx.check(f"{name}/post:centre_is_the_given_centre", And(m.center.data.at(0, 0) == c.data.at(0, 0), m.center.data.at(0, 1) == c.data.at(0, 1)))
-            ctx.check(f"{name}/post:given_centre_is_copied_not_shared", m.center is not c and m.center.data is not c.data and "mean" not in seen)
+            def shares_storage(a, b):
+                # a is b, or a is a numpy view (basic slice) taken from b, directly or through other views
+                seen_ids = set()
+                while a is not None and id(a) not in seen_ids:
+                    if a is b:
+                        return True
+                    seen_ids.add(id(a))
+                    v = getattr(a, "_view_of", None)
+                    a = v[0] if v is not None else None
+                return False
+            ctx.check(f"{name}/post:given_centre_is_copied_not_shared", m.center is not c and not shares_storage(m.center.data, c.data) and "mean" not in seen,
+                      detail="the stored centre must not alias the array the caller passed (a later in-place change of that array would move the patch centre)")
         else:
             ctx.check(f"{name}/post:centre_is_the_weighted_mean_of_the_records", m.center is mean_tok and seen["mean"][0] is p and seen["mean"][1] is w)
         # every record lies within the radius of the stored centre
